@@ -47,8 +47,8 @@ def main():
                 "8 steps, cold (one-shot generator domain) and warm (domain cached by an earlier complete evaluation), and samples "
                 "14-step schedules over 4 elements by seeded simulation; each schedule carries the prediction of the "
                 "as-implemented protocol. Every schedule is stepped with next() on real iterators in six query families (same "
-                "query twice, two queries sharing a variable, set_of, a shared condition node, an exists query, independent "
-                "variables) and, for sequential schedules, three rule-query families; each returned value is compared with what "
+                "query twice, two queries sharing a variable, set_of, a shared condition node, an exists query, a shared attribute node used once for its value and once as a condition, "
+                "independent variables) and, for sequential schedules, three rule-query families; each returned value is compared with what "
                 "the evaluation returns when run alone. Non-trivial = a schedule in which two evaluations are live at once or one "
                 "is restarted; distinct by (family, warm, schedule).")
     n_mc = ctx.run_tlc("IterSched", "IterSched_mc.cfg", expect="ok")
@@ -72,6 +72,12 @@ def main():
                 cases.append({"family": fam, "n": n, "warm": w, "h": h})
     for k, h in enumerate(warm[::step]):
         cases.append({"family": "bare_var", "n": 4, "warm": True, "h": h})
+    for k, h in enumerate(warm[1::step]):
+        cases.append({"family": "shared_mapping", "n": 4, "warm": True, "h": h})
+    for k, h in enumerate(cold[2::step * 2]):
+        cases.append({"family": "shared_mapping", "n": 4, "warm": False, "h": h})
+    for k, h in enumerate(warm[2::step * 3]):
+        cases.append({"family": "shared_mapping_root", "n": 4, "warm": True, "h": h})
     seq = [h for h in cold if sequential(h)]
     for k, fam in enumerate(RULES):
         for h in seq[k % step::step]:
@@ -91,7 +97,11 @@ def main():
         first = next(i for i, (a, b) in enumerate(zip(obs, alone)) if a != b)
         info = {"family": c["family"], "warm": c["warm"], "n": c["n"], "schedule": c["h"], "observed": obs, "alone": alone,
                 "first_divergence": first}
-        if obs == asis and not c["family"].startswith("rule") and c["family"] != "independent":
+        if c["family"] == "shared_mapping_root" or (c["family"] == "shared_mapping" and not sequential(c["h"])):
+            # signature (finding F34): a shared attribute node that is the SOLE condition of the second query, or two evaluations
+            # over the shared node RUNNING at the same time; sequential schedules of the and-form must be right
+            ctx.known_finding("C03-F34", info)
+        elif obs == asis and not c["family"].startswith("rule") and c["family"] != "independent":
             ctx.known_finding("C03-F06", info)          # exactly what the as-implemented protocol (SharedDrain) predicts
         else:
             ctx.violation(info, note="an evaluation returned something else than it returns when run alone "
